@@ -2449,3 +2449,122 @@ class SeqKinds:
         if isinstance(e, ast.Attribute):
             return self._of_annotation(self._callee_returns(e))
         return None
+
+
+# ---------------------------------------------------------------------------
+# reading through a statement-level call of a plain module-level helper
+# ---------------------------------------------------------------------------
+
+def _plain_stmt_helper(p, f: Func, call: ast.Call) -> Optional[Func]:
+    """The callee of `call` when it is a plain function of f's own module whose body can stand where the call statement
+    stands: module level, no decorators, not a coroutine / generator, no nested definitions, no global / nonlocal,
+    positional-or-keyword parameters only, no `return` except (at most) a bare one as its very last statement."""
+    if any(isinstance(a, ast.Starred) for a in call.args) or any(k.arg is None for k in call.keywords):
+        return None
+    h = p.resolve_callable(f, call.func)
+    if not isinstance(h, Func) or h.cls is not None or h.parent is not None or h.module is not f.module or h.is_async or h.decorators \
+            or h.node is f.node:
+        return None
+    a = h.node.args
+    if a.vararg or a.kwarg or a.kwonlyargs or a.posonlyargs:
+        return None
+    for x in ast.walk(h.node):
+        if x is not h.node and isinstance(x, (ast.FunctionDef, ast.AsyncFunctionDef, ast.Lambda, ast.ClassDef)):
+            return None
+        if isinstance(x, (ast.Yield, ast.YieldFrom, ast.Await, ast.Global, ast.Nonlocal)):
+            return None
+        if isinstance(x, ast.Return) and not (x.value is None and h.node.body and x is h.node.body[-1]):
+            return None
+    names = [x.arg for x in a.args]
+    given = set(names[:len(call.args)]) | {k.arg for k in call.keywords}
+    if len(call.args) > len(names) or not given <= set(names) or len(given) != len(call.args) + len(call.keywords):
+        return None
+    n_def = len(a.defaults)
+    for i, nm in enumerate(names):
+        if nm not in given and i < len(names) - n_def:
+            return None
+    return h
+
+
+def inline_stmt_helpers(p, f: Func, depth: int = 2) -> Func:
+    """`f` with every statement `H(args)` (an expression statement) of a plain same-module helper H (see
+    _plain_stmt_helper) replaced by H's body: a parameter that H never re-binds and that is handed a plain name IS that
+    name; any other parameter becomes a fresh local bound to the argument (or to the default) in front of the body; H's
+    own locals are renamed apart.  Statements keep the positions they have in H.  `f` itself is returned when there is
+    nothing to replace.  The view is what the statements of `f` do, in order, with the helper's statements in place of
+    the call -- for rules that judge stores / tests spread over the statements of one function."""
+    import copy as _copy
+    cache = p.__dict__.setdefault('_c09_inline_views', {})
+    key = (f.qual, id(f.node))
+    if key in cache:
+        return cache[key]
+    counter = [0]
+
+    def expand(stmts, d):
+        out, changed = [], False
+        for st in stmts:
+            if isinstance(st, ast.Expr) and isinstance(st.value, ast.Call) and d < depth:
+                h = _plain_stmt_helper(p, f, st.value)
+                if h is not None:
+                    counter[0] += 1
+                    tag = '_inl%d_' % counter[0]
+                    hp = [x.arg for x in h.node.args.args]
+                    stored = {x.id for x in ast.walk(h.node) if isinstance(x, ast.Name) and isinstance(x.ctx, (ast.Store, ast.Del))}
+                    actual = dict(zip(hp, st.value.args))
+                    actual.update({k.arg: k.value for k in st.value.keywords})
+                    n_def = len(h.node.args.defaults)
+                    for i, nm in enumerate(hp):
+                        if nm not in actual:
+                            actual[nm] = h.node.args.defaults[i - (len(hp) - n_def)]
+                    ren = {}
+                    pre = []
+                    for nm in hp:
+                        a = actual[nm]
+                        if isinstance(a, ast.Name) and nm not in stored and a.id not in stored:
+                            ren[nm] = a.id
+                        else:
+                            ren[nm] = tag + nm
+                            pre.append(ast.copy_location(ast.Assign(targets=[ast.Name(id=tag + nm, ctx=ast.Store())], value=_copy.deepcopy(a)), st))
+                    for nm in stored - set(hp):
+                        ren[nm] = tag + nm
+                    body = [_copy.deepcopy(s) for s in h.node.body]
+                    if body and isinstance(body[-1], ast.Return):
+                        body = body[:-1]
+                    body = [s for s in body if not (isinstance(s, ast.Expr) and isinstance(s.value, ast.Constant))] or [ast.copy_location(ast.Pass(), st)]
+                    for s in body:
+                        for x in ast.walk(s):
+                            if isinstance(x, ast.Name) and x.id in ren:
+                                x.id = ren[x.id]
+                    body, _ch = expand(body, d + 1)
+                    out.extend(pre + body)
+                    changed = True
+                    continue
+            for fld in ('body', 'orelse', 'finalbody'):
+                sub = getattr(st, fld, None)
+                if isinstance(sub, list) and sub and isinstance(sub[0], ast.stmt):
+                    new, ch = expand(sub, d)
+                    if ch:
+                        setattr(st, fld, new)
+                        changed = True
+            for hd in getattr(st, 'handlers', None) or []:
+                new, ch = expand(hd.body, d)
+                if ch:
+                    hd.body = new
+                    changed = True
+            out.append(st)
+        return out, changed
+
+    g = f
+    if any(isinstance(st, ast.Expr) and isinstance(st.value, ast.Call) and _plain_stmt_helper(p, f, st.value) is not None
+           for st in walk_no_nested(f.node)):
+        node = _copy.deepcopy(f.node)
+        # (the calls of the copy resolve like those of the original: resolution goes by name through f's module)
+        body, ch = expand(node.body, 0)
+        if ch:
+            node.body = body
+            ast.fix_missing_locations(node)
+            g = Func(node, f.qual, f.module, f.cls, f.parent)
+            g.nested = f.nested
+            g.origin = f
+    cache[key] = g
+    return g
